@@ -154,6 +154,13 @@ def check_C06(chk, tier, seed):
             script = []
         cases.append(f"SE {c[2:]} {ws(script)}")
         expect.append(("write", "SE ok " + xb(fr)))
+        if k % 7 == 3:
+            # a peer that stops reading for a while (6 s, a minute, an hour of virtual time) in the middle of the frame and then goes
+            # on: the write waits - it neither gives up nor reports success for a prefix
+            pause = ["t:1770", "t:ea60", "t:36ee80"][(k // 7) % 3]
+            cut = max(1, len(fr) // 3)
+            cases.append(f"SE {c[2:]} {ws([cut, pause, 7, pause, 1 << 20])}")
+            expect.append(("write-slow-peer", "SE ok " + xb(fr)))
         # every now and then an encode that fails in between - a message the wire cannot carry (nothing may be written), a
         # writer that breaks in mid-frame (a prefix is written) - on the same thread: the next message must go out clean
         if k % 9 == 0:
@@ -249,6 +256,18 @@ def check_C07(chk, tier, seed):
                 chunks = [data] if not chunked else random_chunking(r, data[:64]) + ([data[64:]] if len(data) > 64 else [])
                 cases.append(f"SD g 1 {rs(chunks)}")
                 meta.append((L, kind, len(cont)))
+    # a read that is interrupted (ErrorKind::Interrupted) inside the length prefix or inside the body: whatever the reader does
+    # about it - give up with the error, or try again - the bound on the octets taken stands, and a refused length stays refused
+    for L in (0, 3, 19, 20, 24, 92, (1 << 20) + 1, (1 << 24) - 1, 4096):
+        r = rng.fork(f"i{L}")
+        prefix = bytes([1]) + gen.be(L, 3)
+        cont = r.bytes(min(max(L - 4, 0), 1200) + 40)
+        for cut in (1, 2, 3, 4, 5, 12, 20):
+            data = prefix + cont
+            if cut >= len(data):
+                continue
+            cases.append(f"SD g 1 {rs([data[:cut], 'i', data[cut:]])}")
+            meta.append((L, "interrupted-read", len(cont)))
     cases += [c for c in regress_cases("C07")]
     meta += [(None, "regress", 0)] * (len(cases) - len(meta))
     impl = core.run_sharded([eng.harness, "codec"], eng.prelude, cases, timeout=900)
@@ -269,7 +288,7 @@ def check_C07(chk, tier, seed):
         else:
             consumed = int(t[-1][1:])
             if L is not None:
-                if L > (1 << 20) and not (res == "ERR" and consumed == 4):
+                if L > (1 << 20) and not (res == "ERR" and (consumed == 4 or (kind == "interrupted-read" and consumed <= 4))):
                     ok = False
                     chk.violation(f"a frame announcing {L} octets (above the 1 MiB limit) was not refused after consuming only its 4-octet prefix (result {res}, {consumed} octets taken)",
                                   dict(case=c, announced=L, impl=short(im, 600)))
@@ -279,7 +298,7 @@ def check_C07(chk, tier, seed):
                 elif consumed > max(L, 4):
                     ok = False
                     chk.violation(f"{consumed} octets were taken from the stream for an announced length of {L}", dict(case=c, announced=L, impl=short(im, 600)))
-        if ok and im != mo:
+        if ok and im != mo and kind != "interrupted-read":      # (giving up with the error or trying again are both fine: only the bounds above are demanded)
             chk.corr_break("observation differs from the model", dict(case=c, announced=L, impl=short(im, 1000), model=short(mo, 1000)))
         if i % max(1, len(cases) // 6) == 0:
             chk.sample(dict(case=c, announced=L, impl=short(im, 120), P=ok))
